@@ -67,6 +67,12 @@ class GListT(T):
         self.elem, self.maxlen = elem, maxlen
 
 
+class CArrT(T):
+    """C array / pointer: element arrays (one per struct field when `fields` is given), symbolic buffer length."""
+    def __init__(self, name, fields=None, byte=False):
+        self.name, self.fields, self.byte = name, fields, byte
+
+
 class ConstT(T):
     """A parameter fixed to a concrete Python value (e.g. a class object)."""
     def __init__(self, v): self.v = v
@@ -117,6 +123,18 @@ def mk(t, name, inv):
         n = fresh(name + ".len", I)
         inv.append(z3.And(0 <= n, n <= t.maxlen))
         return ListV((n > k, mk(t.elem, f"{name}[{k}]", inv)) for k in range(t.maxlen))
+    if isinstance(t, CArrT):
+        from .state import CArr
+        n = fresh(name + ".buflen", I)
+        inv.append(n >= 0)
+        if t.fields:
+            arr = {f_: fresh(f"{name}.{f_}", AII) for f_ in t.fields}
+        else:
+            arr = fresh(name + ".arr", AII)
+            if t.byte:
+                k = z3.Int(f"k!{name}")
+                inv.append(z3.ForAll([k], z3.And(0 <= arr[k], arr[k] <= 255)))
+        return CArr(arr, n, None, t.name)
     if isinstance(t, ConstT):
         return t.v
     raise TypeError(f"unknown contract type {t!r}")
